@@ -1092,3 +1092,46 @@ func factHolds(in ssa.Instruction, holds func(cond ssa.Value, truth bool) bool) 
 func inLoop(in ssa.Instruction) bool {
 	return blocksAfter(in)[in.Block()]
 }
+
+// resolveSpill: go/ssa spills results into local cells when a function has a
+// defer ("defer-spilled returns"). For a load of such a cell, return the value
+// of the last store to the cell before the load in the same block (or the
+// unique dominating store).
+func resolveSpill(v ssa.Value) ssa.Value {
+	ld, ok := v.(*ssa.UnOp)
+	if !ok || ld.Op != token.MUL {
+		return v
+	}
+	cell, ok := ld.X.(*ssa.Alloc)
+	if !ok {
+		return v
+	}
+	b := ld.Block()
+	var last ssa.Value
+	for _, in := range b.Instrs {
+		if in == ssa.Instruction(ld) {
+			break
+		}
+		if st, ok := in.(*ssa.Store); ok && st.Addr == ssa.Value(cell) {
+			last = st.Val
+		}
+	}
+	if last != nil {
+		return last
+	}
+	var dom ssa.Value
+	n := 0
+	for _, ref := range *cell.Referrers() {
+		if st, ok := ref.(*ssa.Store); ok && st.Addr == ssa.Value(cell) && dominates(st, ld) {
+			dom = st.Val
+			n++
+		}
+	}
+	if n == 1 {
+		return dom
+	}
+	return v
+}
+
+// isRecoverBlock: the synthetic block go/ssa adds for functions with defers.
+func isRecoverBlock(b *ssa.BasicBlock) bool { return b.Parent().Recover == b }
